@@ -100,6 +100,12 @@ Definition update_prev (c : cfg) (ref : Z) (p : prev_t) (inter : bool) (ctx1 crx
           p_crx := time64_of_time crx; p_srx := k_rx resp |}
   else p.
 
+(* ntp.ValidateResponseTimestamps: 0 = nil, else the error class *)
+Definition timestamps_ok (t0 t1 t2 t3 : Z) : Z :=
+  if time_sub t3 t0 <? 0 then E_clock
+  else if time_sub t2 t1 <? 0 then E_response
+  else 0.
+
 (* one decoded datagram from the expected source; can_retry = the retry of the
    receive loop has not been used (and the deadline has not passed) *)
 Definition process_response (c : cfg) (ref : Z) (p : prev_t) (ireq : bool) (req : pkt)
@@ -110,8 +116,8 @@ Definition process_response (c : cfg) (ref : Z) (p : prev_t) (ireq : bool) (req 
       let inter := match cls with RInter => true | _ => false end in
       if negb (metadata_ok resp) then DFail E_response else
       let '(t0, t1, t2, t3) := select_ts inter p now0 ctx1 crx resp in
-      if time_sub t3 t0 <? 0 then DFail E_clock
-      else if time_sub t2 t1 <? 0 then DFail E_response
+      let e := timestamps_ok t0 t1 t2 t3 in
+      if negb (e =? 0) then DFail e
       else DAccept {| a_inter := inter; a_t0 := t0; a_t1 := t1; a_t2 := t2; a_t3 := t3;
                       a_off := clock_offset t0 t1 t2 t3;
                       a_rtd := round_trip_delay t0 t1 t2 t3;
@@ -143,9 +149,13 @@ Fixpoint recv_loop (c : cfg) (ref : Z) (p : prev_t) (ireq : bool) (req : pkt) (n
 
 (* one exchange attempt (measureClockOffsetIP / measureClockOffsetSCION after the
    socket is open): clock reading now0, kernel transmit stamp ctx1, datagrams *)
-Record attempt_in := { ai_now0 : Z; ai_ctx1 : Z; ai_dgrams : list dgram }.
+(* ai_ref: the reference of this attempt: the configured server address, or with
+   NTS the server and port named by the key-exchange data in use (remoteAddr is
+   rewritten from it before the reference string is formed) *)
+Record attempt_in := { ai_now0 : Z; ai_ctx1 : Z; ai_ref : Z; ai_dgrams : list dgram }.
 
-Definition attempt (c : cfg) (ref : Z) (p : prev_t) (i : attempt_in) : bool * pkt * ares :=
+Definition attempt (c : cfg) (p : prev_t) (i : attempt_in) : bool * pkt * ares :=
+  let ref := ai_ref i in
   let '(ireq, req) := build_request c ref p (ai_now0 i) in
   (ireq, req, recv_loop c ref p ireq req (ai_now0 i) (ai_ctx1 i) 0 (ai_dgrams i)).
 
@@ -163,7 +173,7 @@ Record call_out := {
   co_prev : prev_t;
   co_starved : bool }.                       (* the model wanted another attempt but no input was left *)
 
-Fixpoint call_loop (c : cfg) (ref : Z) (n : nat) (i nerr : Z) (p : prev_t)
+Fixpoint call_loop (c : cfg) (n : nat) (i nerr : Z) (p : prev_t)
     (ok : bool) (ts off err : Z) (acc : list (bool * pkt * ares)) (ins : list attempt_in) : call_out :=
   match n with
   | O => {| co_attempts := rev acc; co_ok := ok; co_ts := ts; co_off := off; co_err := err;
@@ -173,7 +183,7 @@ Fixpoint call_loop (c : cfg) (ref : Z) (n : nat) (i nerr : Z) (p : prev_t)
       | [] => {| co_attempts := rev acc; co_ok := ok; co_ts := ts; co_off := off; co_err := err;
                  co_prev := p; co_starved := true |}
       | a :: ins' =>
-          let '(ireq, req, r) := attempt c ref p a in
+          let '(ireq, req, r) := attempt c p a in
           let acc' := (ireq, req, r) :: acc in
           match r with
           | AAccept x =>
@@ -181,15 +191,15 @@ Fixpoint call_loop (c : cfg) (ref : Z) (n : nat) (i nerr : Z) (p : prev_t)
               if in_interleaved_mode c p'
               then {| co_attempts := rev acc'; co_ok := true; co_ts := a_ts x; co_off := a_off x; co_err := 0;
                       co_prev := p'; co_starved := false |}
-              else call_loop c ref n' (i + 1) nerr p' true (a_ts x) (a_off x) 0 acc' ins'
+              else call_loop c n' (i + 1) nerr p' true (a_ts x) (a_off x) 0 acc' ins'
           | AErr e =>
-              call_loop c ref n' (i + 1) (nerr + 1) p ok ts off (if nerr =? i then e else err) acc' ins'
+              call_loop c n' (i + 1) (nerr + 1) p ok ts off (if nerr =? i then e else err) acc' ins'
           end
       end
   end.
 
-Definition measure_call (c : cfg) (ref : Z) (p : prev_t) (ins : list attempt_in) : call_out :=
-  call_loop c ref (if c_im c then 3%nat else 1%nat) 0 0 p false 0 0 0 [] ins.
+Definition measure_call (c : cfg) (p : prev_t) (ins : list attempt_in) : call_out :=
+  call_loop c (if c_im c then 3%nat else 1%nat) 0 0 p false 0 0 0 [] ins.
 
 (* the start of a call: MeasureClockOffsetSCION resets a client that is not in
    interleaved mode (no path is kept for it) before it measures; reset = the
